@@ -6,6 +6,7 @@ import json
 from spverif.core.util import attempt, exc_sig, rand_bytes, rand_uint, documented_errors, hist_len
 from spverif.ref import pus as P
 from spverif.ref import ccsds as H
+from spverif.props import _views as V
 
 SCRIBBLE = True
 THOROUGH_SCALE = 12
@@ -49,10 +50,28 @@ def mk_rid(v32, route):
     if route == "from_sp_header":
         h = sp.SpacePacketHeader(sp.PacketType(f["ptype"]), f["apid"], f["count"], 5, bool(f["shf"]), sp.SequenceFlags(f["flags"]), f["version"])
         return RequestId.from_sp_header(h)
+    if route.startswith("from_pus_tc"):
+        # "the request id of a telecommand": the telecommand object reached in the three ways a PusTc can get an arbitrary header
+        from spacepackets.ecss.tc import PusTcDataFieldHeader
+        h = sp.SpacePacketHeader(sp.PacketType(f["ptype"]), f["apid"], f["count"], 5 + 1 + 2 - 1, bool(f["shf"]), sp.SequenceFlags(f["flags"]), f["version"])
+        if f["ptype"] != 1 and route != "from_pus_tc/setters":
+            return RequestId.from_sp_header(h)              # a telecommand object is refused a telemetry header (documented ValueError)
+        if route == "from_pus_tc/composite":
+            tc = PusTc.from_composite_fields(h, PusTcDataFieldHeader(17, 1, 0), b"\x00")
+        elif route == "from_pus_tc/unpacked":
+            raw = bytes(PusTc.from_composite_fields(h, PusTcDataFieldHeader(17, 1, 0), b"\x00").pack())
+            assert raw[:4] == v32.to_bytes(4, "big")
+            tc = PusTc.unpack(raw)
+        else:
+            tc = PusTc(service=17, subservice=1, apid=f["apid"], seq_count=f["count"])
+            tc.sp_header.seq_flags, tc.sp_header.sec_header_flag, tc.sp_header.packet_type = sp.SequenceFlags(f["flags"]), bool(f["shf"]), sp.PacketType(f["ptype"])
+            if f["version"]:
+                return RequestId.from_sp_header(h)          # the constructor route cannot carry a version
+        return RequestId.from_pus_tc(tc)
     raise AssertionError(route)
 
 
-ROUTES = ("unpack", "ctor", "from_raw", "from_sp_header")
+ROUTES = ("unpack", "ctor", "from_raw", "from_sp_header", "from_pus_tc/composite", "from_pus_tc/unpacked", "from_pus_tc/setters")
 
 
 def k_rid(ctx, v32, route):
@@ -176,6 +195,10 @@ def k_report(ctx, p):
                      expected=want, observed=bytes(raw) if ok else repr(raw)):
         return
     ctx.check("report.source_data", bytes(rep.source_data) == src and rep.tc_req_id.as_u32() == tc_v32, "views", f"sub={sub}", case)
+    # "each with its declared width": the length helpers of the parameter objects add up to the source data
+    ok, ln = attempt(lambda: (rep._verif_params.len() if hasattr(rep, "_verif_params") else None, None if rep.failure_notice is None else rep.failure_notice.len()))
+    if ok and ln[0] is not None:
+        ctx.check("report.source_data", ln[0] == len(src) and (ln[1] is None or ln[1] == cw + len(p["fdata"]) // 2), "declared_lengths_do_not_add_up", f"sub={sub}", case, observed=ln, expected=len(src))
     up = s1.UnpackParams(len(ts), sw, cw)
     ok, u = attempt(s1.Service1Tm.unpack, want, up)
     if not ctx.check("report.unpack", ok, "raised", f"sub={sub}/" + (exc_sig(u) if not ok else ""), case, error=repr(u)):
@@ -198,6 +221,20 @@ def k_report(ctx, p):
     ctx.check("report.roundtrip", ok and e is True, "decoded_report_not_equal_to_original", "failure" if sub % 2 == 0 else "success", case, observed=repr(e))
     ok, ft = attempt(s1.Service1Tm.from_tm, u.pus_tm, up)
     ctx.check("report.roundtrip", ok and ft.tc_req_id.as_u32() == tc_v32 and bytes(ft.pack()) == want, "from_tm", f"sub={sub}", case)
+    if ok:
+        # the report decoded through the alternate constructor: same fields, equal to the original, and it keeps them while later ones are decoded
+        got2 = {"rid": ft.tc_req_id.as_u32(), "step": None if ft.step_id is None else [ft.step_id.pfc // 8, ft.step_id.val],
+                "code": None if ft.error_code is None else [ft.error_code.pfc // 8, ft.error_code.val],
+                "fdata": None if ft.failure_notice is None else bytes(ft.failure_notice.data).hex(), "sub": int(ft.subservice), "service": int(ft.service),
+                "is_step": ft.is_step_reply, "has_notice": ft.has_failure_notice, "ts": bytes(ft.timestamp).hex()}
+        ctx.check("report.unpack", got2 == exp, "field_through_from_tm", f"sub={sub}/" + ",".join(k for k in exp if got2[k] != exp[k]), case, expected=exp, observed=got2)
+        ok, e = attempt(lambda: (ft == rep) and (rep == ft))
+        ctx.check("report.roundtrip", ok and e is True, "report_from_tm_not_equal_to_original", "failure" if sub % 2 == 0 else "success", case, observed=repr(e))
+        ISO.remember(ft, want, lambda u=ft: (u.tc_req_id.as_u32(), None if u.step_id is None else (u.step_id.pfc, u.step_id.val),
+                                             None if u.error_code is None else (u.error_code.pfc, u.error_code.val),
+                                             None if u.failure_notice is None else bytes(u.failure_notice.data).hex(), int(u.subservice), bytes(u.source_data).hex()))
+    V.sp_views(ctx, "report.delegated_views", rep, want, case, "Service1Tm/built")
+    V.sp_views(ctx, "report.delegated_views", u, want, case, "Service1Tm/unpacked")
     # the report object (built and decoded) re-used for the next packet: header fields changed through the wrapped packet, packed again
     for label, obj in (("built", rep), ("decoded", u)):
         apid2, count2 = (p["apid"] ^ 0x155) & 0x7FF, (count + 0x2001) & 0x3FFF
@@ -249,7 +286,7 @@ def k_rid_set(ctx, seed, n=1500):
                (((hi + 1) & 0xFFFF) << 16) | ((lo - 1) & 0xFFFF), (((hi + 1) & 0xFFFF) << 16) | ((lo - 1000003) & 0xFFFF), v ^ 0x80008000, v ^ 0x00010001, (hi << 16) | hi, (lo << 16) | lo]
         vals.update(fam)
     vals = sorted(vals)
-    objs = [mk_rid(v, ROUTES[i % 4]) for i, v in enumerate(vals)]
+    objs = [mk_rid(v, ROUTES[i % len(ROUTES)]) for i, v in enumerate(vals)]
     d = {}
     for o, v in zip(objs, vals):
         d[o] = v
@@ -387,7 +424,7 @@ def run(ctx):
                 continue
             other = r.getrandbits(16)
             v = (w << 16 | other) if half == 0 else (other << 16 | w)
-            k_rid(ctx, v, ROUTES[w % 4])
+            k_rid(ctx, v, ROUTES[w % len(ROUTES)])
     ctx.exhaustive.append("each 16-bit half of the request id" + (" (quick: one residue class mod 4 + both ends)" if ctx.quick else "") + ", routes rotated")
     for b in range(32):
         for v in (1 << b, 0xFFFFFFFF ^ (1 << b)):
